@@ -14,7 +14,7 @@ CHECKS = {
         "consecutive calls. Oracle reads provenance from the progeny: allowed parents per side, source changes only where "
         "xoprob>0, one intermediate hybrid per mating, DH homozygosity, counts/order/names/family labels/counters, inputs and "
         "marker metadata unchanged. Absence is not established; intermediate hybrids are not observable directly. "
-        "Also: negative parent indices, progeny counters beyond the 7-digit padding (each progeny then located through the counter in its name).",
+        "Also: negative parent indices, progeny counters beyond the 7-digit padding (each progeny then located through the counter in its name). Later rounds: the crossover-probability array edited in place between two calls; per-cross count arrays in narrow integer dtypes whose products exceed the dtype.",
         "Counters < 10**7; at least one progeny in total; starting copy at the first marker unconstrained.",
         "DESIGN.md §3 C01"),
     "C02": (
@@ -27,7 +27,7 @@ CHECKS = {
         "independence between gametes; stored xoprob equals the map function of the map distance (1e-12). Total false-alarm "
         "budget 1e-9 per run. Convergence 'in the limit' is replaced by finite samples: deviations below ~0.026 (quick) / "
         "~0.008 (thorough) are not detectable. "
-        "Also: parents homozygous at a generated subset of markers (recombination between heterozygous markers across homozygous ones against the product formula) and one 4500 x 2048 call (all crossover patterns of one call distinct).",
+        "Also: parents homozygous at a generated subset of markers (recombination between heterozygous markers across homozygous ones against the product formula) and one 4500 x 2048 call (all crossover patterns of one call distinct). Later rounds: stored probabilities of 1e-30 over 1.6e8 interval-meioses; maps handed over through both map classes, grouped by the constructor or left in file order.",
         "Fixed-seed statistical test; trusts scipy.stats.binomtest; numpy generator streams assumed to be good uniform sources.",
         "DESIGN.md §3 C02"),
     "C03": (
@@ -40,7 +40,7 @@ CHECKS = {
         "all labels of one entity (the expected arrangement comes from numpy applied to the id lists; for sort/group the realised "
         "permutation is read back and only key order is required), operands are unchanged, generic(axis=+/-) equals specific, mutating "
         "equals non-mutating, and a reported grouping is a true contiguous partition. "
-        "Also: square-taxa, molecular-coancestry and square taxa-trait families (operations on both taxa axes, fill value off the blocks), the three genotyping protocols after preparatory grouping/sorting, mutating operations applied to the live object with earlier operands re-verified after every step (aliasing), wide group ids under narrow label dtypes, matrix operands with partial explicit label arrays.",
+        "Also: square-taxa, molecular-coancestry and square taxa-trait families (operations on both taxa axes, fill value off the blocks), the three genotyping protocols after preparatory grouping/sorting, mutating operations applied to the live object with earlier operands re-verified after every step (aliasing), wide group ids under narrow label dtypes, matrix operands with partial explicit label arrays. Later rounds: group ids spelled negative, beyond 2^53 (equal as float64) or at the int64 ends.",
         "Index semantics taken from numpy; operands share the receiver's entities on the other axes; tie order in sorts unconstrained; "
         "square-taxa, breeding-value and trait-square families are covered to the extent stated in evidence.",
         "DESIGN.md §3 C03"),
@@ -62,7 +62,7 @@ CHECKS = {
         "additive / inf across chromosomes, sequential = pairwise, interpolation at own markers exact, exact-rational linear reference between and "
         "beyond markers, order preservation, absent chromosome -> NaN, invariance under row permutation, interp_gmap rows and group metadata; "
         "interp_xoprob on phased and unphased matrices equals mapfn of consecutive interpolated distances with 1/2 at chromosome starts. "
-        "Also: operation histories on map objects (rebuild, remove/select, setter, derived maps, copies) with every other live map re-verified; matrices that already carry positions.",
+        "Also: operation histories on map objects (rebuild, remove/select, setter, derived maps, copies) with every other live map re-verified; matrices that already carry positions. Later rounds: the same query arrays edited in place between two interpolations; chromosome labels of any integer dtype and value (-1, 0, dtype ends, pairs equal as float64).",
         "Duplicated physical positions excluded (as the property states); negative distances on non-congruent maps are skipped and counted.",
         "DESIGN.md §3 C11"),
     "C12": (
@@ -73,7 +73,7 @@ CHECKS = {
         "(written from the mating protocols, not from the library's D-matrix formulas; self-tested on hand-computed values at import) within "
         "1e-11 x sum|terms|; symmetry in exchangeable parents, zero for identical parents, mem invariance, taxa-permutation equivariance, labels; "
         "usefulness criterion = parental mean + intensity x sqrt(variance); rprob_filial and cov_D* utilities against enumerated pedigrees. "
-        "Also: one factory / model / genotype object re-used through 2..4 requests with public modifications in between.",
+        "Also: one factory / model / genotype object re-used through 2..4 requests with public modifications in between. Later rounds: usefulness criterion through the four protocols' problem() with the breeding-value slot filled; genetic maps not monotone in stored marker order.",
         "Binary allele coding; progeny genic covariance classes cannot be instantiated (abstract) and are not exercised.",
         "DESIGN.md §3 C12"),
     "C13": (
@@ -84,7 +84,7 @@ CHECKS = {
         "bound, kinship = half coancestry, commutation with sub-selection/permutation for fixed reference frequencies, inverse / extreme / mean / "
         "minimum-inbreeding summaries and the PSD predicate against numpy on the oracle matrix; a second sub-check wraps generated PD, singular "
         "and indefinite matrices. "
-        "Also: panel sizes across 2^15 / 2^16 markers with a closed-form oracle; row-major, column-major, strided and read-only storage; in-place reorder/sort/group followed by queries; a private snapshot for the no-mutation clause.",
+        "Also: panel sizes across 2^15 / 2^16 markers with a closed-form oracle; row-major, column-major, strided and read-only storage; in-place reorder/sort/group followed by queries; a private snapshot for the no-mutation clause. Later rounds: the stored matrix edited in place (item assignment, in-place operators, apply_jitter) between two rounds of summaries.",
         "Inverse and min-inbreeding only for condition number <= 1e6; Yang reference frequencies in [0.01,0.99]; weights 0 or >= 1e-6.",
         "DESIGN.md §3 C13"),
     "C14": (
@@ -95,7 +95,7 @@ CHECKS = {
         "set_h2/set_H2 give var_err = (1-h)/h x var_A|G; large trials test error, replicate and environment variance with exact chi-square "
         "tails; mean-phenotype breeding values equal the fsum mean of each taxon's records, are invariant to row permutation, aligned to the "
         "genotype matrix's taxon order, NaN exactly for unphenotyped taxa. "
-        "Also: label columns stored as str/object/string/categorical and several integer dtypes; the same array object passed for several variance arguments and to a second protocol.",
+        "Also: label columns stored as str/object/string/categorical and several integer dtypes; the same array object passed for several variance arguments and to a second protocol. Later rounds: arbitrary row indexes of the phenotype table (repeated labels, stacked trials, MultiIndex); label contents (white space, empty, nan-like, numeric-looking, case/unicode variants, prefixes, very long, mixed int/str) for taxa, traits and column names.",
         "Duplicate taxon names and taxa with more than one group are outside the domain; models with one fixed effect; statistical resolution ~10-25% at the quick tier.",
         "DESIGN.md §3 C14"),
     "C15": (
@@ -105,7 +105,7 @@ CHECKS = {
         "zeros for constant traits), every summary on the original scale (max/min/range/mean/std/var/arg-extrema) equals the exact raw "
         "statistic for NaN-free traits; histories of select/delete/insert/adjoin/concat/append/remove/incorp keep every retained taxon's raw "
         "row and NaN positions; DenseScaledMatrix rescale/unscale/transform/untransform. "
-        "Also: units from 1e-30 to 1e10, zero-row operands, every earlier object re-verified after each step, negative indices.",
+        "Also: units from 1e-30 to 1e10, zero-row operands, every earlier object re-verified after each step, negative indices. Later rounds: operands of every class of the family and other array-like kinds for every taxa-axis operation; a quarter of the history steps are calls the library refuses, after which the object must be bit-identical and the history continues.",
         "Summaries on NaN-containing traits are not asserted (ambiguous); append/incorp with a bare ndarray not exercised (raw vs scaled ambiguous).",
         "DESIGN.md §3 C15"),
     "C16": (
@@ -115,7 +115,7 @@ CHECKS = {
         "pandas/CSV/dict/egmap round trips with generated column names, separators and units, VCF text generated from a grammar and imported by "
         "both genotype classes (sample names, coordinates, ids, phased calls exact), copy/deepcopy equality, no shared memory, and mutation of "
         "every array of the deep copy leaving the source unchanged. "
-        "Also: histories of further copies/edits on one source object for every copy entry point.",
+        "Also: histories of further copies/edits on one source object for every copy entry point. Later rounds: dtype widths of every stored field varied across HDF5 overwrites (narrow->wide, wide->narrow, same and different shapes); read-back compared in value and item size.",
         "Frame formats cannot represent an absent label array (skipped there); CSV floats exact for dyadic values, 1e-12 relative otherwise (pandas parser).",
         "DESIGN.md §3 C16"),
     "C05": (
@@ -127,7 +127,7 @@ CHECKS = {
         "weights x declared transformations (harness closures record their arguments); evaluate() row-wise equals evalfn; nlatent = len(latent). "
         "Factory sub-checks build problems from populations stored in two taxon orders with non-sorted names and compare both the data attributes "
         "and end-to-end latent values with oracle values computed from the population. "
-        "Also: evalfn = declared weights x declared transformations (with their own kwargs) for all 77 factory methods, and fixed factory cases across the 1024-row chunk boundary.",
+        "Also: evalfn = declared weights x declared transformations (with their own kwargs) for all 77 factory methods, and fixed factory cases across the 1024-row chunk boundary. Later rounds: every problem object and every factory-made problem re-declared through public setters (ndecn, data, weights, transformations) and evaluated again; real vectors with totals down to 1e-30 and rescaling by 2^-100..2^100.",
         "Subsets are lists of distinct members (repeats via the integer encoding); UC factories only for inbred parents/nself=0 (variance itself is C12); "
         "haplotype factories only for unambiguous block layouts (C18); OCS/MGR/MEH factories have an independent kinship oracle for the molecular estimator only.",
         "DESIGN.md §3 C05"),
@@ -138,7 +138,7 @@ CHECKS = {
         "members, bounds, dtypes), reported objective/constraint values equal a fresh evaluation, multi-objective results contain no dominated "
         "member, the problem object is unchanged; SortingSubsetOptimizationAlgorithm attains the brute-force optimum over all C(n,k) subsets of "
         "separable problems; hill-climbers are 1-exchange locally optimal under (violation, score); pymoo_addon operators keep subsets valid. "
-        "Also: objective units from 1e-12 to 1e15 and near-ties, population-wise (elementwise=False) evaluation with both constraint kinds, signed-slack constraints.",
+        "Also: objective units from 1e-12 to 1e15 and near-ties, population-wise (elementwise=False) evaluation with both constraint kinds, signed-slack constraints. Later rounds: position-dependent objectives and constraints; 2-4 integer-valued constraint rows of both kinds so that exact ties of aggregate violations occur.",
         "GA runs are not replay-deterministic through the public API (C08 findings); oracles are validity predicates and every violation message carries the returned arrays.",
         "DESIGN.md §3 C06"),
     "C07": (
@@ -149,7 +149,7 @@ CHECKS = {
         "candidates by an independently computed criterion and permuting/relabelling the population permutes the choice; ten protocol combinations "
         "with GA optimisers: configuration decision is the reported solution and, for multi-objective runs, a non-dominated argmax of the declared "
         "preference transformation recomputed by the harness. "
-        "Also: independent OHV and UC truncation criteria with the exact optimiser incl. cross maps beyond 1024/2048 candidates, and re-use of one protocol object with settings and populations changed between uses.",
+        "Also: independent OHV and UC truncation criteria with the exact optimiser incl. cross maps beyond 1024/2048 candidates, and re-use of one protocol object with settings and populations changed between uses. Later rounds: usefulness-criterion protocols with the two-/three-/four-way and dihybrid variance factories against an independent criterion whose parental shares come from the pedigree.",
         "No independent truncation criterion for OHV/UC/OCS (validity and consistency only); fronts where the default preference is NaN are labelled and skip only the argmax clause.",
         "DESIGN.md §3 C07"),
     "C08": (
@@ -160,7 +160,7 @@ CHECKS = {
         "different global seeds and leaves random/numpy.random states byte-identical. Plus one enumerated representative call per component "
         "class. Calls matching the known findings (pymoo-based optimisers, Random*Selection.problem, UnconstrainedSetGeneticAlgorithm) have "
         "exactly the affected clauses skipped and counted. "
-        "Also: long-lived components (incl. copies) created before the re-seeding, and large inputs at which size-dependent branches are entered.",
+        "Also: long-lived components (incl. copies) created before the re-seeding, and large inputs at which size-dependent branches are entered. Later rounds: every documented argument form of the four sampling utilities, including forms the tree rejects (a rejected call must leave the global streams untouched).",
         "Prior interpreter histories are sampled (prefix programs + direct draws), not enumerated; hidden entropy that never reaches an output is invisible.",
         "DESIGN.md §3 C08"),
     "C09": (
@@ -169,7 +169,7 @@ CHECKS = {
         "(1.0/d)*d != 1.0 forced, forced all-0/all-1/one-copy-different loci, every dtype argument) against "
         "integer and Fraction definitions computed in Python; boundary clauses (frequency exactly 0/1 iff fixed, "
         "afixed == not apoly, ploidy+1 genotype classes summing to n) are exact. Absence is not established. "
-        "Also: statistics re-queried after in-place edits of the same object; populations of 50001 and 60000 taxa.",
+        "Also: statistics re-queried after in-place edits of the same object; populations of 50001 and 60000 taxa. Later rounds: read-only views of caller-owned memory edited between queries; phases/taxa/variants appended, removed, incorporated in place between two rounds of queries.",
         "Trusts numpy integer sums and Python Fraction; integer dtypes too narrow for the result are outside the domain.",
         "DESIGN.md §3 C09"),
     "C10": (
@@ -180,7 +180,7 @@ CHECKS = {
         "(phased matrix, unphased matrix, raw dosage array, frequency vector): limits equal their definition on integer counts, "
         "bracket every individual's value (oracle values and the library's own gebv), usl never rises, lsl never falls, lost alleles "
         "never reappear, limits coincide with the common value when everything is fixed. "
-        "Also: models with several fixed-effect rows.",
+        "Also: models with several fixed-effect rows. Later rounds: unphased haploid and diploid views kept across selection steps and culled by select_taxa / delete_taxa / in-place remove_taxa.",
         "Histories are bounded (<= 6 steps, <= 107 taxa, <= 9 loci); diploid binary coding.",
         "DESIGN.md §3 C10"),
     "C17": (
@@ -191,7 +191,7 @@ CHECKS = {
         "tiled_choice without replacement: every option q or q+1 times with exactly the remainder at q+1. axis_shuffle: only the requested "
         "slices are permuted. outcross_shuffle: multiset preserved, duplicates never increase, no pair exchange lowers them — all 858 tables "
         "over three symbols up to 3x2 enumerated, larger ones generated. "
-        "Also: wide cross tables whose descent needs far more rounds than there are crosses.",
+        "Also: wide cross tables whose descent needs far more rounds than there are crosses. Later rounds: sessions of calls in a forked child (process-level state, narrow dtypes, ids congruent mod 2^8/2^16/2^32); weight totals within 1e-16..1e-2 of round values with up to 2.5e6 draws.",
         "Negative axes for axis_shuffle and non-contiguous tables for outcross_shuffle are outside the domain (undocumented / no caller).",
         "DESIGN.md §3 C17"),
     "C18": (
@@ -202,7 +202,7 @@ CHECKS = {
         "written and finite, blocks sum to the copy's additive value), OHV/OPV/GenotypeBuilder values = ploidy x sum of best block values and "
         ">= every doubled haploid that recombines only at block boundaries (exhaustive when <= 256 choices). Cases in which some equal-width bin "
         "receives no marker (known finding F-C18-a, signature computed by the harness from the case alone) skip exactly the clauses it breaks. "
-        "Also: problem objects driven through evaluate / assign block values or nbestfndr through the public setter / evaluate again.",
+        "Also: problem objects driven through evaluate / assign block values or nbestfndr through the public setter / evaluate again. Later rounds: block values edited in place through the getter or the caller's buffer; genomic models with u_misc, several fixed-effect rows, the dominance subclass.",
         "While pybrops runs, numpy.empty is replaced by an allocator that fills with NaN / a sentinel so uninitialised blocks cannot pass by luck.",
         "DESIGN.md §3 C18"),
     "C19": (
@@ -212,7 +212,7 @@ CHECKS = {
         "0..4 points on a {0,1,2}^2 grid under all sign patterns enumerated, larger/float sets generated. dominates(): Pareto dominance for "
         "feasible pairs, smaller violation otherwise, irreflexive, asymmetric, transitive (grid enumerated). The three distance-to-preference-"
         "vector transformations equal min-max scaling + orthogonal distance to the preference line computed by explicit projection, are "
-        "translation invariant where translation is exact, and finite for constant objectives.",
+        "translation invariant where translation is exact, and finite for constant objectives. Later rounds: numpy.empty/empty_like replaced by a NaN-filling allocator around every library call; objective units 2^-40..2^40; sel-variant tolerances carry the conditioning of the input.",
         "Translation clause only on grids where the translation is exact in binary64.",
         "DESIGN.md §3 C19"),
     "C20": (
@@ -221,7 +221,7 @@ CHECKS = {
         "written from the statement predicts the exact trace (operator order, replicate, t_cur, t_max, content fingerprints, mating "
         "configuration hand-over, logging after every step). Every replicate's first evaluation sees contents equal to the initial state, the "
         "stored start containers deep-equal their snapshot and share no mutable object or array memory with anything an operator received. "
-        "The small block is enumerated completely (4608 cases); random scripts add nested containers, evolve-after-evolve and advance.",
+        "The small block is enumerated completely (4608 cases); random scripts add nested containers, evolve-after-evolve and advance. Later rounds: working containers fed back as stored initial state, two interleaved programmes; counts and clocks as numpy scalars, 0-d arrays, bool.",
         "Hand-over is compared by content, not identity; partially given start state is not asserted (statement silent).",
         "DESIGN.md §3 C20"),
 }
